@@ -12,7 +12,7 @@ from . import specfam as S
 PROP = "C17"
 
 # package-level variables of the linked packages and the only uses they may have besides plain reads
-ALLOWED_CALLS = {"idRegex": {"MatchString"}, "templates": {"ReadFile"}}
+ALLOWED_CALLS = {"idRegex": {"MatchString"}, "templates": {"ReadFile"}, "RuneClasses": {"Runes"}}   # Runes() builds a new slice from the class
 ALLOWED_PASSED = {
     "plum": {"c.Infof"}, "gold": {"c.Infof"}, "chartreuse": {"c.Infof"},
     "navajoWhite": {"g.Debugf"}, "darkOrange": {"g.Infof"}, "hotPink": {"g.Infof"}, "orchid": {"g.Infof"},
